@@ -263,7 +263,13 @@ struct LinAlgGen {
   const ExprNode& kmat() { IntervalMatrix m(n, n); bool zo = r.coin(60); for (int i = 0; i < n; i++) for (int j = 0; j < n; j++) m[i][j] = zo ? (r.coin(40) ? 1.0 : 0.0) : r.range(-4, 4) / 2.0; return ExprConstant::new_matrix(m); }
   const ExprNode& scal(int d) {
     if (d <= 0 || r.coin(20)) { if (!scals.empty() && r.coin(70)) return *scals[r.below(scals.size())]; return ExprConstant::new_scalar(r.range(-4, 4) / 2.0); }
-    switch (r.below(6)) {
+    switch (r.below(9)) {
+      case 6: { // the same dot product met twice, once through a chain of matrix products (polynomial normal forms)
+        const ExprNode& a = col(0); const ExprNode& b = col(0);
+        switch (r.below(4)) { case 0: return ((transpose(a) * b) * transpose(a)) * b; case 1: return transpose(a) * ((transpose(a) * b) * b);
+                              case 2: return ((transpose(a) * b) * (scal(d - 1) * transpose(a))) * b; default: return (scal(d - 1) * ((transpose(a) * b) * transpose(a))) * col(0); } }
+      case 7: { const ExprNode& a = row(0) * col(0); return (a + scal(d - 1)) * (a - scal(d - 1)); }
+      case 8: return sqr(row(d - 1) * col(d - 1)) - scal(d - 1);
       case 0: return row(d - 1) * col(d - 1);
       case 1: return col(d - 1)[(int)r.below(n)];
       case 2: return row(d - 1)[(int)r.below(n)];
